@@ -379,8 +379,11 @@ func callOp(a verAPI, op Op, obj unsafe.Pointer, lastErr error, out *opOut, live
 				out.aliasIn = fmt.Sprintf("%s returned %q; after the caller reused its input buffer the same values read %q", op.S, trunc(out.res), trunc(now))
 			}
 		}
-		if op.D == 1 {
+		switch op.D {
+		case 1:
 			scribble(rs) // the caller uses what it got as its own
+		case 2:
+			reorder(rs) // ... sorts it, say
 		}
 	}
 }
